@@ -4,6 +4,8 @@ SAFETY_KINDS = {"overflow", "div-by-zero", "bounds", "precondition", "shift", "a
 
 PROPS = {
     "C06": {
+        "witness_always": ["common_scaled"],
+        "witness_bound": {"common_scaled": "print->scan round trip: ALL 2^16 fractions x 9 integer parts x both signs (display_no_units / parse_no_units on the real code); boundary lattices for the arithmetic functions"},
         "level": "proof",
         "verus": ["common_scaled"],
         "kani": [],
@@ -18,6 +20,7 @@ PROPS = {
 
 
 PROPS["C01"] = {
+    "witness_fns": {"stdext_groupingmap": ["insert", "end_group", "begin_group"]},
     "level": "proof",
     "verus": ["stdext_groupingmap", "texlang_savestack", "texlang_cmdmap", "stdlib_prefix"],
     "kani": [],
@@ -35,6 +38,8 @@ PROPS["C20"] = {
     "level": "proof",
     "verus": ["stdext_groupingmap"],
     "kani": [],
+    "witness_always": ["stdext_groupingmap"],
+    "witness_bound": {"stdext_groupingmap": "scoped map: every history of length <= 6 over 2 keys x 2 values, both backing containers; KMP: every pattern of length <= 6 / text <= 11 over 2 letters and pattern <= 4 / text <= 8 over 3 letters"},
     "unverified_callers": [
         "IterAll / FromIterator replay (GAT iterators, rejected by Verus) - the 'replay rebuilds the same map' clause is NOT decided",
         "Interner (str/String) - NOT decided",
@@ -82,6 +87,8 @@ PROPS["C04"] = {
     "assumptions": ["demerit parameters within +-9e8, line_penalty within +-1e9 (TeX itself overflows beyond)"],
 }
 PROPS["C17"] = {
+    "witness_always": ["tfm_fixword"],
+    "witness_bound": {"tfm_fixword": "compress: every non-empty subset of {0..11} x scale {1,3} x class limit 1..4 against brute-force minimal tolerance; next-larger: all 625 functional graphs on 4 characters; fix_word print/parse: 43k values through the real PL reader; to_scaled: boundary lattice"},
     "level": "proof",
     "verus": ["tfm_fixword"],
     "kani": [],
